@@ -1,16 +1,78 @@
 import NdnModel.CodecIO
-import NdnModel.Cert
+import NdnModel.CertTime
 /-  C16 protocol:
-    `C16 cert <keyName hexlist> <issuer hex> <version hex> <pubkey hex> <(five signer-info values)> <y,mo,d,h,mi,s> <y,mo,d,h,mi,s> <reserved:sighex>`
-       → `ok W=<wire> C=<covered> N=<name list> | ok P=<values>` | `err <PyErr>`
-    `C16 fmt <y,mo,d,h,mi,s>` → `ok <hex>` -/
+    `C16 cert <keyName hexlist> <issuer hex> <version hex> <pubkey hex> <(five signer-info values)> <issue> <reserved:sighex>`
+       → `ok W=<wire> C=<covered> N=<name list> | ok P=<values>` | `err <PyErr>` | `skip year<1000`
+    `C16 times <issue>` → `ok <notBefore hex> <notAfter hex>` | `err <PyErr>` | `skip year<1000`
+       <issue> = `derive:<ord>,<sec>,<us>,<offset minutes | n>,<expire_sec>` | `req:<ord>,<sec>,<us>` | `self:<ord>,<sec>,<us>`
+       (the model computes the calendar fields of the validity period itself)
+    calendar stream (instant <inst> = `o:<ord>,<sec>,<us>` | `f:<y>,<mo>,<d>,<h>,<mi>,<s>,<us>`):
+    `C16 cal ymd2ord <y>,<mo>,<d>` → `ok <ord>` | `err ValueError`
+    `C16 cal ord2ymd <n>` → `ok <y>,<mo>,<d>` | `err ValueError`
+    `C16 cal range <lo> <count>` → `ok <y>,<mo>,<d0>,<k>;…`: `_ord2ymd` of every ordinal lo .. lo+count-1, runs of
+       consecutive days of one month written once (year, month, first day, number of days)
+    `C16 cal add <inst> <n>` / `cal utc <inst> <offset minutes>` / `cal addyears <inst> <k>`
+       → `ok <ord>,<sec>,<us>;<y>,<mo>,<d>,<h>,<mi>,<s>` | `err <PyErr>`
+    `C16 cal fmt <inst>` → `ok <hex>` | `skip year<1000` -/
 namespace Ndn.Drv.C16
-open Ndn Ndn.Codec Ndn.Packet Ndn.Cert
+open Ndn Ndn.Codec Ndn.Packet Ndn.Cert Ndn.Calendar
 
-def readTime (s : String) : Option Bytes :=
-  match natList s with
-  | some [y, mo, d, h, mi, sec] => some (formatTime y mo d h mi sec)
+def intList (s : String) : Option (List Int) := (s.splitOn ",").mapM String.toInt?
+
+def mkInstant (o s u : Int) : Option Instant :=
+  if 0 ≤ o ∧ 0 ≤ s ∧ 0 ≤ u then
+    let t : Instant := { ord := o.toNat, sec := s.toNat, us := u.toNat }
+    if t.valid then some t else none
+  else none
+
+def readIssue (s : String) : Option Issue :=
+  match s.splitOn ":" with
+  | ["derive", r] =>
+    match r.splitOn "," with
+    | [o, sec, us, off, n] => do
+      let t ← mkInstant (← o.toInt?) (← sec.toInt?) (← us.toInt?)
+      let off ← (if off == "n" then some none else off.toInt?.map some : Option (Option Int))
+      pure (.derive t off (← n.toInt?))
+    | _ => none
+  | ["req", r] =>
+    match intList r with
+    | some [o, sec, us] => do let t ← mkInstant o sec us; pure (.req t t)
+    | _ => none
+  | ["self", r] =>
+    match intList r with
+    | some [o, sec, us] => do let t ← mkInstant o sec us; pure (.self t)
+    | _ => none
   | _ => none
+
+def readInstant (s : String) : Option Instant :=
+  match s.splitOn ":" with
+  | ["o", r] =>
+    match intList r with
+    | some [o, sec, us] => mkInstant o sec us
+    | _ => none
+  | ["f", r] =>
+    match natList r with
+    | some [y, mo, d, h, mi, sec, us] =>
+      match mkDate y mo d with
+      | .ok o => if h < 24 ∧ mi < 60 ∧ sec < 60 then mkInstant o (h * 3600 + mi * 60 + sec) us else none
+      | .error _ => none
+    | _ => none
+  | _ => none
+
+def showInstant (t : Instant) : String :=
+  let f := fields t
+  showNatList [t.ord, t.sec, t.us] ++ ";" ++ showNatList [f.1, f.2.1, f.2.2.1, f.2.2.2.1, f.2.2.2.2.1, f.2.2.2.2.2]
+
+/-- `ord2ymd` of `count` consecutive ordinals, as runs of consecutive days within a month -/
+def rangeRuns (lo count : Nat) : List (List Nat) :=
+  ((List.range count).foldl (fun (acc : List (List Nat)) i =>
+    let r := ord2ymd (lo + i)
+    match acc with
+    | [y, m, d0, c] :: rest =>
+      if r.1 == y && r.2.1 == m && r.2.2 == d0 + c then [y, m, d0, c + 1] :: rest else [r.1, r.2.1, r.2.2, 1] :: acc
+    | _ => [r.1, r.2.1, r.2.2, 1] :: acc) []).reverse
+
+def inFmtDomain (t : Instant) : Bool := decide (minFmtOrdinal ≤ t.ord)
 
 mutual
 partial def hideMarkers : List Schema → List Value → List Value
@@ -23,25 +85,65 @@ partial def hideMarker : Schema → Value → Value
   | _, v => v
 end
 
+/-- `none` = the validity period leaves the years 1000..9999 where the text model holds -/
+def domainOk (i : Issue) : Bool :=
+  match i.instants with
+  | .ok (s, e) => inFmtDomain s && inFmtDomain e
+  | .error _ => true
+
 def handle (args : List String) : String :=
   match args with
-  | ["cert", kn, iss, ver, pk, si, t0, t1, sg] =>
-    match fromHexList kn, fromHex iss, fromHex ver, fromHex pk, readValues si, readTime t0, readTime t1,
+  | ["cert", kn, iss, ver, pk, si, is, sg] =>
+    match fromHexList kn, fromHex iss, fromHex ver, fromHex pk, readValues si, readIssue is,
         (match sg.splitOn ":" with
           | [r, h] => (do let n ← r.toNat?; let b ← fromHex h; pure (SignerOut.mk n b) : Option SignerOut)
           | _ => none) with
-    | some k, some i, some v, some p, some s, some a, some b, some g =>
-      match newCert k i v p s a b g with
+    | some k, some i, some v, some p, some s, some t, some g =>
+      if !domainOk t then "skip year<1000" else
+      match issueCert k i v p s t g with
       | .ok m =>
         "ok W=" ++ toHex m.wire ++ " C=" ++ toHexList m.covered ++ " N=" ++ toHexList m.finalName ++ " | " ++
           (match parseCert m.wire with
             | .ok vs => "ok P=" ++ showValues (hideMarkers certFs vs)
             | .error e => "err " ++ e.name)
       | .error e => "err " ++ e.name
-    | _, _, _, _, _, _, _, _ => "bad-op"
-  | ["fmt", t] =>
-    match readTime t with
-    | some b => "ok " ++ toHex b
+    | _, _, _, _, _, _, _ => "bad-op"
+  | ["times", is] =>
+    match readIssue is with
+    | some t =>
+      if !domainOk t then "skip year<1000" else
+      match t.validity with
+      | .ok (a, b) => "ok " ++ toHex a ++ " " ++ toHex b
+      | .error e => "err " ++ e.name
+    | none => "bad-op"
+  | ["cal", "ymd2ord", a] =>
+    match natList a with
+    | some [y, mo, d] => showExcept toString (mkDate y mo d)
+    | _ => "bad-op"
+  | ["cal", "ord2ymd", a] =>
+    match a.toNat? with
+    | some n => showExcept (fun r => showNatList [r.1, r.2.1, r.2.2]) (fromOrdinal n)
+    | none => "bad-op"
+  | ["cal", "range", a, b] =>
+    match a.toNat?, b.toNat? with
+    | some lo, some cnt =>
+      if 1 ≤ lo ∧ lo + cnt ≤ maxOrdinal + 1 then "ok " ++ ";".intercalate ((rangeRuns lo cnt).map showNatList) else "bad-op"
+    | _, _ => "bad-op"
+  | ["cal", "add", t, n] =>
+    match readInstant t, n.toInt? with
+    | some t, some n => showExcept showInstant (addSeconds t n)
+    | _, _ => "bad-op"
+  | ["cal", "utc", t, o] =>
+    match readInstant t, o.toInt? with
+    | some t, some o => showExcept showInstant (toUtc t (some o))
+    | _, _ => "bad-op"
+  | ["cal", "addyears", t, k] =>
+    match readInstant t, k.toNat? with
+    | some t, some k => showExcept showInstant (addYears t k)
+    | _, _ => "bad-op"
+  | ["cal", "fmt", t] =>
+    match readInstant t with
+    | some t => if inFmtDomain t then "ok " ++ toHex (fmtInstant t) else "skip year<1000"
     | none => "bad-op"
   | _ => "bad-op"
 
